@@ -223,11 +223,20 @@ func TopLibFrame(stack string) string {
 
 // PanicSig builds a signature fragment from a recovered panic: kind of panic plus top library frame.
 func PanicSig(val any, stack string) string {
-	kind := "panic"
 	if _, ok := val.(StepBudgetExceeded); ok {
-		kind = "steps"
+		// name the loop's owner, not the reader primitive the budget happened to fire in
+		for _, ln := range strings.Split(stack, "\n") {
+			ln = strings.TrimSpace(ln)
+			if strings.HasPrefix(ln, repoPath) && !strings.Contains(ln, "/verifhook.") && !strings.Contains(ln, "/packet.(*Reader)") {
+				if i := strings.LastIndex(ln, "("); i > 0 {
+					ln = ln[:i]
+				}
+				return "steps@" + strings.TrimPrefix(ln, repoPath)
+			}
+		}
+		return "steps@" + TopLibFrame(stack)
 	}
-	return kind + "@" + TopLibFrame(stack)
+	return "panic@" + TopLibFrame(stack)
 }
 
 func (w *Worker) runCase(st *Stage, idx uint64) {
